@@ -42,7 +42,17 @@ func runSolver(sp solverSpec, file string, timeoutS, seed int) solveResult {
 	return runSolverCtx(context.Background(), sp, file, timeoutS, seed)
 }
 
+// procSem bounds the number of solver processes running at once (the machine
+// has 16 cores; oversubscription turns fast proofs into timeouts).
+var procSem = make(chan struct{}, 16)
+
 func runSolverCtx(parent context.Context, sp solverSpec, file string, timeoutS, seed int) solveResult {
+	select {
+	case procSem <- struct{}{}:
+	case <-parent.Done():
+		return solveResult{solver: sp.name, status: "timeout"}
+	}
+	defer func() { <-procSem }()
 	ctx, cancel := context.WithTimeout(parent, time.Duration(timeoutS+2)*time.Second)
 	defer cancel()
 	argv := sp.argv(file, timeoutS, seed)
@@ -95,8 +105,9 @@ func discharge(o *Obligation, idx int, opt solveOpts) {
 		defer os.Remove(file)
 	}
 	useCvc5 := !strings.Contains(q, "(lambda")
-	// first: z3-new alone with a short budget (most goals take milliseconds)
-	first := runSolver(solvers[0], file, 1, opt.seed)
+	// first: the two z3 versions race with a short budget (most goals take
+	// milliseconds on one of them)
+	first := raceSolvers(file, []solverSpec{solvers[0], solvers[1]}, 2, opt.seed)
 	o.Time += first.time
 	res := first
 	if first.status != "unsat" && first.status != "sat" {
@@ -198,4 +209,29 @@ func dischargeAll(obls []*Obligation, opt solveOpts, par int) {
 		}(i, o)
 	}
 	wg.Wait()
+}
+
+// raceSolvers runs the given solvers concurrently; the first definitive answer
+// wins and the others are cancelled.
+func raceSolvers(file string, sps []solverSpec, timeoutS, seed int) solveResult {
+	ctx, cancel := context.WithCancel(context.Background())
+	defer cancel()
+	ch := make(chan solveResult, len(sps))
+	for i, sp := range sps {
+		go func(sp solverSpec, i int) { ch <- runSolverCtx(ctx, sp, file, timeoutS, seed+i) }(sp, i)
+	}
+	t0 := time.Now()
+	var res solveResult
+	for range sps {
+		r := <-ch
+		if r.status == "unsat" || r.status == "sat" {
+			r.time = time.Since(t0).Seconds()
+			return r
+		}
+		if res.status == "" || r.status != "error" {
+			res = r
+		}
+	}
+	res.time = time.Since(t0).Seconds()
+	return res
 }
